@@ -31,6 +31,7 @@ var (
 	Perms    = []uint32{0o755, 0o644, 0o600, 0o000, 0o777, 0o2755, 0o4755, 0o1777, 0o070}
 	Datas    = []string{"", "x", "hello", "0123456789"}
 	Sizes    = []int64{-1, 0, 1, 3, 100}
+	Regrow   = []int64{2, 3, 5, 7, 9}
 	Ids      = []int{-1, 0, 1001, 1002}
 	Mtimes   = []int64{0, 1000000000, 2000000000}
 	Patterns = []string{"", "t", "t*", "t*.x", "*"}
@@ -152,7 +153,13 @@ func (c Config) Draw(t *rapid.T) Inst {
 	case "Symlink":
 		return Inst{{K: k, P: rapid.SampledFrom(c.Targets()).Draw(t, "target"), P2: path("p2")}}
 	case "Truncate":
-		return Inst{{K: k, P: path("p"), Size: rapid.SampledFrom(Sizes).Draw(t, "size")}}
+		pp := path("p")
+		in := Inst{{K: k, P: pp, Size: rapid.SampledFrom(Sizes).Draw(t, "size")}}
+		if rapid.Bool().Draw(t, "again") {
+			// shrink and grow again: what lies beyond the end must come back as zeros
+			in = append(in, fsx.Op{K: k, P: pp, Size: rapid.SampledFrom(Regrow).Draw(t, "size2")}, fsx.Op{K: "ReadFile", P: pp})
+		}
+		return in
 	case "Chmod":
 		return Inst{{K: k, P: path("p"), Perm: perm()}}
 	case "Chown", "Lchown":
@@ -245,6 +252,9 @@ func (c Config) All(reduced, withRel bool) []Inst {
 				for _, s := range Sizes {
 					r = append(r, Inst{{K: k, P: p, Size: s}})
 				}
+				for _, pr := range [][2]int64{{1, 3}, {2, 7}, {3, 2}} {
+					r = append(r, Inst{{K: k, P: p, Size: pr[0]}, {K: k, P: p, Size: pr[1]}, {K: "ReadFile", P: p}})
+				}
 			}
 		case "Chown", "Lchown":
 			for _, p := range paths {
@@ -299,6 +309,7 @@ func (c Config) StartTrees() map[string][]fsx.Op {
 		"hard":    {md(b + "/a"), wf(b+"/a/b", "AB"), {K: "Link", P: b + "/a/b", P2: b + "/c"}, {K: "Link", P: b + "/a/b", P2: b + "/b"}},
 		"modes":   {md(b + "/a"), wf(b+"/a/b", "AB"), {K: "Chmod", P: b + "/a", Perm: 0o2750}, {K: "Chmod", P: b + "/a/b", Perm: 0o4711}, wf(b+"/b", ""), {K: "Chdir", P: b + "/a"}},
 		"cwd":     {md(b + "/a"), md(b + "/a/a"), wf(b+"/a/b", "AB"), {K: "Chdir", P: b + "/a"}},
+		"content": {wf(b+"/a", "0123456789"), md(b + "/b"), wf(b+"/b/a", "hello"), {K: "Link", P: b + "/a", P2: b + "/c"}},
 	}
 	if c.Symlinks {
 		sl := func(tg, p string) fsx.Op { return fsx.Op{K: "Symlink", P: tg, P2: p} }
